@@ -28,6 +28,7 @@ func (e *enc) freshResults(x ssa.Value, sig *types.Signature, prefix string) []T
 		ty := sig.Results().At(i).Type()
 		t := e.fresh(prefix, e.so.of(ty))
 		e.assumeWF(t, ty, 2)
+		e.assumeAllocated(t, ty)
 		ts = append(ts, t)
 	}
 	e.setResult(x, sig, ts)
@@ -282,7 +283,7 @@ func (e *enc) inline(x *ssa.Call, callee *ssa.Function, argVals []ssa.Value, arg
 // callEnv builds the spec environment of a callee contract at a call site.
 func (e *enc) callEnv(callee *ssa.Function, argVals []ssa.Value, args []Term) *specEnv {
 	fr := e.fr
-	env := &specEnv{e: e, fr: fr, pkg: callee.Pkg.Pkg, vars: map[string]tval{}, ptrLoc: map[string]*Loc{}, mem: e.mem, varLoc: map[string]*Loc{}}
+	env := &specEnv{e: e, fr: fr, pkg: callee.Pkg.Pkg, vars: map[string]tval{}, ptrLoc: map[string]*Loc{}, mem: e.mem, varLoc: map[string]*Loc{}, structArg: map[string]*Loc{}}
 	for i, p := range callee.Params {
 		if i >= len(args) {
 			break
@@ -295,6 +296,11 @@ func (e *enc) callEnv(callee *ssa.Function, argVals []ssa.Value, args []Term) *s
 			if _, isMap := p.Type().Underlying().(*types.Map); isMap {
 				if l, ok := fr.prov[argVals[i]]; ok {
 					env.varLoc[p.Name()] = l
+				}
+			}
+			if _, isStruct := p.Type().Underlying().(*types.Struct); isStruct && !isNodeType(p.Type()) {
+				if l, ok := fr.prov[argVals[i]]; ok && l.ty != nil {
+					env.structArg[p.Name()] = l
 				}
 			}
 		}
@@ -324,6 +330,14 @@ func (e *enc) modularCall(x *ssa.Call, callee *ssa.Function, ct *Contract, args 
 		e.assumeAt(g)
 	}
 	pre := copyMem(e.mem)
+	// the callee may allocate: allocation sets grow monotonically
+	for _, k := range sortedKeys(e.mem) {
+		if strings.HasPrefix(k, "AL:") {
+			old := e.mem[k]
+			e.mem[k] = e.fresh("al_c", "(Array Int Bool)")
+			e.assume(fmt.Sprintf("(forall ((x Int)) (! (=> (select %s x) (select %s x)) :pattern ((select %s x))))", old, e.mem[k], old))
+		}
+	}
 	// recursion: decreases at the call
 	if ct.Decreases != nil && callee == e.root && e.rootDec != "" {
 		m, _, err := e.specTerm(env, ct.Decreases.E)
@@ -365,6 +379,15 @@ func (e *enc) modularCall(x *ssa.Call, callee *ssa.Function, ct *Contract, args 
 	env2 := e.callEnv(callee, c.Args, args)
 	env2.mem = e.mem
 	env2.oldMem = pre
+	for _, m := range ct.Modifies {
+		if sf, ok := m.E.(*SField); ok {
+			if id, ok := sf.X.(*SIdent); ok {
+				if base, ok := env2.structArg[id.Name]; ok {
+					env2.varLoc[id.Name] = base
+				}
+			}
+		}
+	}
 	for i, t := range ts {
 		env2.results = append(env2.results, e.mkT(t, callee.Signature.Results().At(i).Type()))
 	}
@@ -424,6 +447,27 @@ func (e *enc) havocSpecLoc(env *specEnv, x SExpr) error {
 		}
 	case *SField:
 		if id, ok := n.X.(*SIdent); ok {
+			if base, ok := env.structArg[id.Name]; ok {
+				// a map field of a struct passed by value: the caller's map is updated
+				st, isStruct := base.ty.Underlying().(*types.Struct)
+				if isStruct {
+					ssort := e.so.of(base.ty)
+					for i := 0; i < st.NumFields(); i++ {
+						if st.Field(i).Name() == n.Name {
+							fl := &Loc{base: base.base, ref: base.ref, sort: e.so.fields[ssort][i].sort, ty: st.Field(i).Type()}
+							fl.path = append(append([]step{}, base.path...), step{kind: "field", field: ssort + "." + e.so.fields[ssort][i].name, sort: ssort, fi: i})
+							old := e.read(fl)
+							e.havocLoc(fl)
+							if strings.HasPrefix(fl.sort, "Map_") {
+								e.assume(fmt.Sprintf("(= (nil_%s %s) (nil_%s %s))", fl.sort, e.read(fl), fl.sort, old))
+							}
+							// from now on the parameter denotes the caller's (updated) struct
+							env.varLoc[id.Name] = base
+							return nil
+						}
+					}
+				}
+			}
 			if p := e.findPkg(env.pkg, id.Name); p != nil {
 				sp := e.w.Prog.Package(p)
 				if sp != nil {
